@@ -35,6 +35,7 @@ def run(chk):
     chk.add_neg(mc("MC_Scanner", "NEG_C05_return.cfg", expect_fail=True))
     chk.add_neg(mc("MC_Scanner", "NEG_C05_skip.cfg", expect_fail=True))
     t = record("scan", chk.path("scan.ndjson"), n=1500 if q else 25000, seed=chk.seed)
+    hang_violation(chk, t, "next_msg_frame / MsgFrameIter")
     r = tv("Trace_Scan", "Trace_Scan.cfg", t, shards=10, tag="C05")
     chk.add_tv("scan", r)
     report_rejects(chk, r, sig, lambda ev, d: "%s result differs from the declarative scanner result" % ev["ev"])
